@@ -26,6 +26,7 @@ import (
 	"github.com/nspcc-dev/bbolt"
 	"github.com/nspcc-dev/neofs-node/pkg/local_object_storage/blobstor/fstree"
 	meta "github.com/nspcc-dev/neofs-node/pkg/local_object_storage/metabase"
+	"github.com/nspcc-dev/neofs-node/pkg/local_object_storage/writecache"
 	"github.com/nspcc-dev/neofs-node/verif/lib/ev"
 	"github.com/nspcc-dev/neofs-node/verif/lib/sched"
 	ss "github.com/nspcc-dev/neofs-node/verif/worlds/schedshard"
@@ -272,7 +273,9 @@ func checkRes(x *sched.Exec) (string, string) {
 }
 
 // raceScenario: the client removes R exactly while the background flusher moves it to the blobstor.
-func raceScenario(removal string, pre int) sched.Scenario {
+// The removal starts once the flusher has reached the blobstor with R (early=false) or as soon as
+// the flush scheduler has marked R as being processed (early=true: the worker has not read it yet).
+func raceScenario(removal string, pre int, early bool) sched.Scenario {
 	body := func(s *sched.S) any {
 		root, err := os.MkdirTemp("/dev/shm", "verif-c09-")
 		if err != nil {
@@ -289,7 +292,11 @@ func raceScenario(removal string, pre int) sched.Scenario {
 		defer func() { x.w.Close() }()
 		blobWrites := 0
 		removalReturned := false
+		var evs []string
 		w.OnStep = func(l string) {
+			if os.Getenv("VERIF_DEBUG") != "" {
+				evs = append(evs, fmt.Sprintf("t%d:%s", s.Cur().ID, l))
+			}
 			if l == "blob.Put" || l == "blob.PutBatch" {
 				blobWrites++
 			}
@@ -300,7 +307,13 @@ func raceScenario(removal string, pre int) sched.Scenario {
 		done := false
 		s.Go("client", false, func() {
 			x.put()
-			s.Block("wait for the flusher to reach the blobstor", func() bool { return blobWrites > 0 || s.TimerFires <= 0 })
+			if early {
+				s.Block("wait for the flusher to mark the object", func() bool {
+					return writecache.VerifFlushMarked(w.Sh.VerifSSWriteCache(), ss.Addr(objR)) || s.TimerFires <= 0
+				})
+			} else {
+				s.Block("wait for the flusher to reach the blobstor", func() bool { return blobWrites > 0 || s.TimerFires <= 0 })
+			}
 			if removal == "drop" {
 				x.drop()
 				removalReturned = true
@@ -321,6 +334,9 @@ func raceScenario(removal string, pre int) sched.Scenario {
 		s.Block("join", func() bool { return done })
 		s.AwaitQuiescence()
 		x.observe(removal)
+		if os.Getenv("VERIF_DEBUG") != "" {
+			fmt.Fprintf(os.Stderr, "DBG %v %v | %v\n", early, removal, evs)
+		}
 		x.w.OnStep = nil
 		x.resync()
 		x.observe("Resync")
@@ -328,8 +344,8 @@ func raceScenario(removal string, pre int) sched.Scenario {
 		x.observe("Restart")
 		return res
 	}
-	return sched.Scenario{Name: "flush racing with " + removal,
-		Opt:  sched.Options{PreemptBound: pre, FreeBound: raceFree, MaxSteps: 12000, Setup: func(s *sched.S) { s.TimerFires = 3 }},
+	return sched.Scenario{Name: "flush racing with " + removal + map[bool]string{true: " (removal starts when the object is marked for flushing)", false: ""}[early],
+		Opt:  sched.Options{PreemptBound: pre, FreeBound: map[bool]int{true: 1, false: raceFree}[early], MaxSteps: 12000, Setup: func(s *sched.S) { s.TimerFires = 3 }},
 		Body: body, Check: checkRes, Outcome: func(x *sched.Exec) string {
 			res, _ := x.Result.(*result)
 			if res == nil {
@@ -344,15 +360,25 @@ var raceFree = -1
 func main() {
 	r := ev.Start("C09", ev.ModelChecking)
 	depth, pre := 3, 1
+	list := func(depth, pre int, tag string) []sched.Scenario {
+		l := []sched.Scenario{
+			raceScenario("drop", pre, false), raceScenario("tombstone", pre, false),
+			raceScenario("drop", pre, true), raceScenario("tombstone", pre, true),
+			historyScenario(true, depth), historyScenario(false, depth),
+			// the object is in the blobstor AND put again into the write-cache (Put, Flush, Put), then anything
+			historyScenario(true, depth-1, 0, 5, 0),
+		}
+		for i := range l {
+			l[i].Name += tag
+		}
+		return l
+	}
+	scs := list(depth, pre, "")
 	if r.Thorough() {
+		// deeper bounds after the quick ones (the budget is shared per scenario, leftovers roll on)
 		depth, pre = 5, 2
 		raceFree = 1
-	}
-	scs := []sched.Scenario{
-		raceScenario("drop", pre), raceScenario("tombstone", pre),
-		historyScenario(true, depth), historyScenario(false, depth),
-		// the object is in the blobstor AND put again into the write-cache (Put, Flush, Put), then anything
-		historyScenario(true, depth-1, 0, 5, 0),
+		scs = append(scs, list(depth, pre, " [deep]")...)
 	}
 	r.Rule(fmt.Sprintf("(A) every history of <=%d operations over %d operations x write-cache on/off followed by a closing resync; (B) all schedules with <=%d preemptions of put; flusher || drop / tombstone+expiry+GC; then resync and restart. Monitor on every observation of Get(R); non-trivial = distinct (removal kind, removal observed, fresh upload) outcome classes", depth, len(alphabet), pre))
 	r.Assume("resync is meta.DB.ResyncFromBlobstor run on the stopped shard as neofs-lancet does (write-cache content is not part of it)", "atomics are not scheduling points")
